@@ -184,6 +184,12 @@ def r1_picklable_closure(ctx, closure: List[ClassInfo]) -> None:
     for cls in closure:
         for special in ("__getstate__", "__reduce__", "__reduce_ex__", "__setstate__"):
             if special in cls.methods:
+                # a hook that hands over / restores the whole instance dictionary changes nothing (engine Y, rule Y10, judges the others as well)
+                hb = [s_ for s_ in cls.methods[special].node.body if not (isinstance(s_, ast.Expr) and isinstance(s_.value, ast.Constant))]
+                if special == "__getstate__" and len(hb) == 1 and isinstance(hb[0], ast.Return) and hb[0].value is not None \
+                        and norm(hb[0].value) in ("self.__dict__", "self.__dict__.copy()", "dict(self.__dict__)", "vars(self)", "vars(self).copy()", "dict(vars(self))"):
+                    ctx.ok("R1", f"{cls.name}.{special} hands over the whole instance dictionary")
+                    continue
                 ctx.violation("R1", cls.methods[special].node, f"{cls.name} defines {special}: pickling no longer saves the whole instance state "
                               "(a dropped attribute is lost on resumption)", construct=f"{cls.name}.{special}")
         if "__slots__" in cls.class_attrs:
